@@ -58,10 +58,12 @@ enum Act {
     SetTrusted(u8),
     RemoveTrusted(u8),
     Deliver(Kind, Dev),
+    Advance(u32),
 }
 
 #[derive(Clone, Hash)]
 struct Model {
+    advances: u8,
     trusted: [bool; 2],
     /// deliveries (by message id) already executed
     executed: Vec<String>,
@@ -263,12 +265,15 @@ impl Scenario for C04 {
         iw.mint_asset(&iw.assets[0], &iw.its, 500);
         (
             Ctx { iw, t1_id, t1, t2_id, d1 },
-            Model { trusted: [true, false], executed: vec![], t1_minted: 0, t2_released: 0, app_t1: 0, d1_deployed: false, d1_minter: false },
+            Model { advances: 0, trusted: [true, false], executed: vec![], t1_minted: 0, t2_released: 0, app_t1: 0, d1_deployed: false, d1_minter: false },
         )
     }
 
-    fn actions(&self, ctx: &Ctx, _m: &Model) -> Vec<Act> {
+    fn actions(&self, ctx: &Ctx, m: &Model) -> Vec<Act> {
         let mut v = vec![Act::RemoveTrusted(0), Act::SetTrusted(0), Act::SetTrusted(1), Act::RemoveTrusted(1)];
+        if m.advances < 1 {
+            v.push(Act::Advance(20));
+        }
         for k in KINDS {
             for d in self.devs() {
                 if !self.thorough && k == Kind::TransferWithData && matches!(d, Dev::TruncateAtWord(_)) {
@@ -286,6 +291,13 @@ impl Scenario for C04 {
         let iw = &ctx.iw;
         let w = &iw.w;
         match a {
+            Act::Advance(n) => {
+                out.kind = "advance";
+                out.accepted = true;
+                w.set_seq(w.seq() + n);
+                w.set_time(w.now() + 5 * *n as u64);
+                m.advances += 1;
+            }
             Act::SetTrusted(i) | Act::RemoveTrusted(i) => {
                 let set = matches!(a, Act::SetTrusted(_));
                 out.kind = "trust";
